@@ -28,3 +28,28 @@ CHECKS["C14"] = dict(
     assumptions=["SMT solvers sound", "GoSE faithful to go/ssa semantics"],
     outside=["patterns/subjects longer than the stated bounds"],
 )
+
+_C12_KEYS = dict(key_trace=['"class='])
+CHECKS["C12"] = dict(
+    explanation="Both aws-chunked decoders (real SSA incl. bufio, bytes, strconv, base64, hex) are driven over legal streams built from symbolic "
+                "payload bytes, for every single cut position of the encoded stream and several destination buffer sizes; hashes/HMAC are "
+                "uninterpreted functions. Invalid streams: one byte replaced by any other value, every truncation point, appended junk.",
+    harnesses=[
+        dict(name="H12a-unsigned", pkgs=["./s3api/utils"], entry="s3api/utils.VfChunkUnsignedValid", pkgname="utils", native=True,
+             redirects="spec/redirects.json", reach=["drained", "eof"], **_C12_KEYS),
+        dict(name="H12a-signed", pkgs=["./s3api/utils"], entry="s3api/utils.VfChunkSignedValid", pkgname="utils", native=True,
+             redirects="spec/redirects.json", reach=["drained", "eof"], **_C12_KEYS),
+        dict(name="H12a-signed-trailer", pkgs=["./s3api/utils"], entry="s3api/utils.VfChunkSignedTrailerValid", pkgname="utils", native=True,
+             redirects="spec/redirects.json", reach=["drained", "eof"], **_C12_KEYS),
+        dict(name="H12b-unsigned", pkgs=["./s3api/utils"], entry="s3api/utils.VfChunkUnsignedInvalid", pkgname="utils", native=True,
+             redirects="spec/redirects.json", reach=["accepted", "rejected"], key_trace=['"mutation=']),
+        dict(name="H12b-signed", pkgs=["./s3api/utils"], entry="s3api/utils.VfChunkSignedInvalid", pkgname="utils", native=True,
+             redirects="spec/redirects.json", reach=["accepted", "rejected"], key_trace=['"mutation='], thorough_only=True),
+        dict(name="H12b-signed-trailer", pkgs=["./s3api/utils"], entry="s3api/utils.VfChunkSignedTrailerInvalid", pkgname="utils", native=True,
+             redirects="spec/redirects.json", reach=["accepted", "rejected"], key_trace=['"mutation='], thorough_only=True),
+        dict(name="H12-witness", pkgs=["./s3api/utils"], entry="s3api/utils.VfChunkWitness", redirects="spec/redirects.json", witness=True),
+    ],
+    assumptions=["hash functions and HMAC are uninterpreted functions (functional consistency only; collision freedom assumed in H12b)",
+                 "the underlying reader returns data fragments and io.EOF separately (thorough tier: also together)"],
+    outside=["payloads beyond the listed chunk-size vectors", "more than one cut position (quick) / two (thorough, short streams)", "ECDSA payload types"],
+)
